@@ -197,3 +197,25 @@ Theorem pandas_status_keyword_refuted :
 Proof.
   split; [vm_compute; reflexivity|]. split; eexists; (split; [vm_compute; reflexivity | vm_compute; reflexivity]).
 Qed.
+
+(* hypotheses of reindex_then_label_get are satisfiable; reading the reindexed object by label *)
+Example rx_new_locate_spec : locate_spec (span_labels rx_new) (locate no_pandas rx_new).
+Proof. exact (locate_list_spec no_pandas [LInt 2002; LInt 2001; LInt 2005; LInt 2001]). Qed.
+Example rx_reindex_then_get :
+  match reindex_M no_pandas no_contains cast_tbl rx_state rx_new 9 (PInt 7) None [] 100 with
+  | Ret s => map (fun p => get_item no_pandas s "I" (KLabel (LInt p))) [2002; 2001; 2005; 2000]
+             = [Ret (RScalar (CI 0)); Ret (RScalar (CI (-4))); Ret (RScalar (CI 7)); Raise KeyError]
+  | Raise _ => False
+  end.
+Proof. vm_compute. reflexivity. Qed.
+Example rx_pmodel_wf : wf rx_pmodel.
+Proof. repeat constructor. Qed.
+Example rx_pmodel_old_span_ok : old_span_ok no_pandas no_contains (c_span rx_pmodel) (span_labels (SRange 2001 1 3)).
+Proof.
+  apply old_span_ok_intro.
+  - simpl. lia.
+  - intros p _. exact I.
+  - intros ls E. discriminate.
+Qed.
+Example rx_names_nodup : NoDup ["Y"; "I"; "B"; "S"].
+Proof. repeat constructor; simpl; intuition discriminate. Qed.
